@@ -5,6 +5,7 @@ import (
 	"fmt"
 	"github.com/fabiolb/fabio/transport"
 	"log"
+	"math"
 	"net/url"
 	"reflect"
 	"sort"
@@ -238,11 +239,23 @@ func (r *Route) weighTargets() {
 		return
 	}
 
-	// normalize fixed weights up (sumFixed < 1) or down (sumFixed > 1)
-	scale := 1.0
-	if sumFixed > 1 || (nFixed == len(r.Targets) && sumFixed < 1) {
-		scale = 1 / sumFixed
+	// the sum of very large weights can overflow. Since only their
+	// ratio matters in that case bring them into a safe range first.
+	fixed := func(t *Target) float64 { return t.FixedWeight }
+	if math.IsInf(sumFixed, 0) {
+		fixed = func(t *Target) float64 { return t.FixedWeight / math.MaxFloat64 }
+		sumFixed = 0
+		for _, t := range r.Targets {
+			if t.FixedWeight > 0 {
+				sumFixed += fixed(t)
+			}
+		}
 	}
+
+	// normalize fixed weights up (sumFixed < 1) or down (sumFixed > 1)
+	// Divide by the sum instead of multiplying with its inverse
+	// since 1/sumFixed is +Inf for denormal values.
+	normalize := sumFixed > 1 || (nFixed == len(r.Targets) && sumFixed < 1)
 
 	// compute the weight for the targets with dynamic weights
 	dynamic := (1 - sumFixed) / float64(len(r.Targets)-nFixed)
@@ -252,8 +265,10 @@ func (r *Route) weighTargets() {
 
 	// assign the actual weight to each target
 	for _, t := range r.Targets {
-		if t.FixedWeight > 0 {
-			t.Weight = t.FixedWeight * scale
+		if t.FixedWeight > 0 && normalize {
+			t.Weight = fixed(t) / sumFixed
+		} else if t.FixedWeight > 0 {
+			t.Weight = fixed(t)
 		} else {
 			t.Weight = dynamic
 		}
